@@ -248,19 +248,20 @@ def trySend (cfg : Cfg) (fwd : Fwd) (s : State) (u : Nat) (f : Frame) : State :=
     let s3 := logAt cfg fwd 40 s2
     failedMsg cfg fwd s3 modId f
 
+/-- one iteration of the per-recipient loop of `forward_message` -/
+def deliverOne (cfg : Cfg) (fwd : Fwd) (f : Frame) (s : State) (u : Nat) : State :=
+  match s.find u with
+  | none => s                                  -- removed while this message was being delivered
+  | some m =>
+    if u ∈ s.wlist then
+      if f.dest == 0 || m.modId == f.dest || m.isLogger then trySend cfg fwd s u f else s
+    else if m.isLogger then trySend cfg fwd s u f
+    else failedMsg cfg fwd (s.upd u (fun m => { m with drops := m.drops + 1 })) m.modId f
+
 /-- the per-recipient loop of `forward_message` over the snapshot `rs` -/
 def deliver (cfg : Cfg) (fwd : Fwd) (f : Frame) : List Nat → State → State
   | [], s => s
-  | u :: rest, s =>
-    let s' :=
-      match s.find u with
-      | none => s                                  -- removed while this message was being delivered
-      | some m =>
-        if u ∈ s.wlist then
-          if f.dest == 0 || m.modId == f.dest || m.isLogger then trySend cfg fwd s u f else s
-        else if m.isLogger then trySend cfg fwd s u f
-        else failedMsg cfg fwd (s.upd u (fun m => { m with drops := m.drops + 1 })) m.modId f
-    deliver cfg fwd f rest s'
+  | u :: rest, s => deliver cfg fwd f rest (deliverOne cfg fwd f s u)
 
 def recipients (cfg : Cfg) (s : State) (t : Int) : List Nat :=
   cfg.order (idxGet s.idx t) ++ cfg.order (idxGet s.idx cfg.allTypes)
@@ -286,14 +287,16 @@ def fuelOf (cfg : Cfg) (s : State) : Nat := if cfg.fuel == 0 then autoFuel s els
 /-- top-level forward (fresh fuel) -/
 def fwdTop (cfg : Cfg) : Fwd := fun s f => forward cfg (fuelOf cfg s) s f
 
+/-- one iteration of `send_to_loggers` -/
+def loggerOne (cfg : Cfg) (f : Frame) (s : State) (u : Nat) : State :=
+  match s.find u with
+  | none => s
+  | some _ => trySend cfg (fwdTop cfg) s u f
+
 /-- `send_to_loggers` over the snapshot `ls` -/
 def toLoggers (cfg : Cfg) (f : Frame) : List Nat → State → State
   | [], s => s
-  | u :: rest, s =>
-    let s' := match s.find u with
-      | none => s
-      | some _ => trySend cfg (fwdTop cfg) s u f
-    toLoggers cfg f rest s'
+  | u :: rest, s => toLoggers cfg f rest (loggerOne cfg f s u)
 
 /-- `MessageManager.send_ack` -/
 def sendAck (cfg : Cfg) (s : State) (u : Nat) : State :=
@@ -496,14 +499,10 @@ def readOne (cfg : Cfg) (s : State) (r : Read) : State :=
 
 def u16 (n : Nat) : Nat := n % 65536
 
-def insertSorted (p : Int × Nat) : List (Int × Nat) → List (Int × Nat)
-  | [] => [p]
-  | q :: r => if p.1 < q.1 then p :: q :: r else q :: insertSorted p r
-
-/-- `data.timing[mt] = count` for in-range types (as index-sorted non-zero entries) -/
+/-- `data.timing[mt] = count` for in-range types: the non-zero entries (in counter order; the driver sorts them by
+    index for printing, which is how they sit in the array) -/
 def timingEntries (cfg : Cfg) (c : List (Int × Nat)) : List (Int × Nat) :=
-  ((c.filter (fun p => 0 ≤ p.1 && p.1 < cfg.maxTypes)).map (fun p => (p.1, u16 p.2))).foldl
-    (fun acc p => if p.2 == 0 then acc else insertSorted p acc) []
+  ((c.filter (fun p => 0 ≤ p.1 && p.1 < cfg.maxTypes)).map (fun p => (p.1, u16 p.2))).filter (fun p => p.2 != 0)
 
 def insertSortedI (p : Int × Int) : List (Int × Int) → List (Int × Int)
   | [] => [p]
@@ -530,16 +529,18 @@ def trafficBody (cfg : Cfg) (seqno sub : Nat) (prev : List (Int × Nat)) (c : Li
   let pad := cfg.trafficSize - c.length
   .traffic seqno sub (c.map (·.1) ++ List.replicate pad (-1)) (c.map (fun p => u16 p.2) ++ List.replicate pad 0)
 
-def sendChunks (cfg : Cfg) (seqno : Nat) : Nat → List (List (Int × Nat)) → State → State
-  | _, [], s => s
-  | sub, c :: rest, s =>
-    let s := fwdTop cfg s (mgrFrame cfg.mtTraffic 0 cfg.szTraffic (trafficBody cfg seqno sub [] c))
-    sendChunks cfg seqno (sub + 1) rest s
+def enumFrom1 : Nat → List (List (Int × Nat)) → List (Nat × List (Int × Nat))
+  | _, [] => []
+  | i, c :: r => (i, c) :: enumFrom1 (i + 1) r
+
+/-- the MESSAGE_TRAFFIC sub-messages of one reporting interval -/
+def trafficFrames (cfg : Cfg) (seqno : Nat) (c : List (Int × Nat)) : List Frame :=
+  (enumFrom1 1 (chunks cfg.trafficSize c (c.length + 1))).map
+    (fun p => mgrFrame cfg.mtTraffic 0 cfg.szTraffic (trafficBody cfg seqno p.1 [] p.2))
 
 def sendTraffic (cfg : Cfg) (s : State) : State :=
   let s := { s with inTraffic := true }
-  let cs := chunks cfg.trafficSize s.traffic (s.traffic.length + 1)
-  let s := sendChunks cfg s.trafficSeq 1 cs s
+  let s := (trafficFrames cfg s.trafficSeq s.traffic).foldl (fwdTop cfg) s
   { s with inTraffic := false, traffic := [], tTraffic := s.now, trafficSeq := s.trafficSeq + 1 }
 
 def trimZeros (l : List Int) : List Int := (l.reverse.dropWhile (· == 0)).reverse
